@@ -69,6 +69,21 @@ def run_tree(cfg):
             x = tonp(s.x).astype(np.float64).reshape(-1)
             return ("is", float(tonp(s.log_evidence)), w.tolist(), x.tolist())
         kw = dict(n_steps=T, adaptive=False, n_final_samples=nfinal)
+        if target == "cut":
+            # A population whose particles all have zero likelihood has no weights to resample with: numpy's
+            # Generator.choice (and the facade) raise on the NaN probability vector.  The estimator of such an
+            # execution is Z_hat = 0, which is what it contributes to the exact expectation.
+            try:
+                return _smc(a, smp_kind=sampler, kw=kw, rng=rng)
+            except ValueError as e:
+                dead = len(m["xs"]) - 1
+                if all(i == dead for i in flow.draw_log[0]) and ("probabilities" in str(e) or "NaN" in str(e)):
+                    return ("dead", -math.inf, None, [0.0] * N)
+                raise
+        return _smc(a, smp_kind=sampler, kw=kw, rng=rng)
+
+    def _smc(a, smp_kind, kw, rng):
+        sampler = smp_kind
         if sampler == "smc":
             kw["sampler_kwargs"] = {"n_steps": 1}
             s = a.sample_posterior(n_samples=N, sampler="smc", preconditioning=m["preconditioning"],
@@ -93,6 +108,8 @@ def run_tree(cfg):
             tot_p += p
             xs = [mp.mpf(v) for v in x]
             for k, f in enumerate(FS):
+                if kind == "dead":
+                    continue
                 if kind == "is":
                     val = mp.fsum(mp.mpf(wi) * f(xi) for wi, xi in zip(w, xs)) / len(xs)
                 else:
@@ -104,7 +121,7 @@ def run_tree(cfg):
                     r.violation("C01/importance/evidence-not-mean-weight", {"logz": logz, "w": w}, dict(case, choices=ex.choices))
             nontrivial = len(set(x)) > 1 or any(c != 0 for c in ex.choices)
             r.case(explorer.digest([case, ex.choices]), nontrivial=nontrivial)
-            r.outcomes.add(explorer.digest([round(logz, 12), x]))
+            r.outcomes.add(explorer.digest([logz if logz == -math.inf else round(logz, 12), x]))
     except explorer.HarnessError:
         raise
     except Exception as e:
@@ -129,14 +146,18 @@ def run_tree(cfg):
 
 def configs(tier):
     out = []
-    for target in ("box", "hug", "periodic"):
-        preconds = ["default"] if target == "periodic" else ["none", "default", "logit", "probit"]
+    # "cut": likelihood with a hard support cut (zero-weight particles); "leak": proposal support leaks
+    # outside the prior box (importance sampling only: SMC redraws such points in an unbounded loop)
+    for target in ("box", "hug", "periodic", "cut", "leak"):
+        preconds = ["default"] if target == "periodic" else ["none"] if target == "leak" else ["none", "default", "logit", "probit"]
         for precond in preconds:
             for skew in ("flat", "skew"):
                 out.append((target, precond, "importance", 0, None, 3, skew, "numpy"))
                 if tier == "thorough" or skew == "skew":
                     out.append((target, precond, "importance", 0, None, 3, skew, "torch"))
                 for sampler in ("smc", "emcee_smc"):
+                    if target == "leak":
+                        continue
                     for T in (1, 2) if tier == "quick" else (1, 2, 3):
                         for nfinal in (None, 1):
                             K = 3 if T == 1 else 2
